@@ -1,16 +1,79 @@
-"""C05 — resolution is a pure function of the universe and the root (PyPI resolver: client-unchanged and ask-twice clauses)."""
+"""C05 — resolution is a pure function of the universe and the root (all three resolvers, sequential clauses)."""
+import random
 from vlib.runner import Group, run_property
+from props import c06, c07, c08
 
 SUM = ["deps.dev/util/semver.compare", "(deps.dev/util/resolve/internal/attr.Set).Compare", "(*deps.dev/util/semver.Constraint).Match",
-       "(*deps.dev/util/semver.Constraint).MatchVersionPrerelease", "(deps.dev/util/resolve.PackageKey).Compare"]
+       "(*deps.dev/util/semver.Constraint).MatchVersionPrerelease", "(*deps.dev/util/semver.Constraint).MatchVersion",
+       "(deps.dev/util/semver.System).Compare", "(deps.dev/util/resolve.PackageKey).Compare", "(deps.dev/util/resolve.Node).Compare",
+       "(deps.dev/util/resolve.NodeError).Compare", "(deps.dev/util/resolve.VersionKey).Compare"]
+
+
+def maven_skeleton(rnd, q=False):
+    p = {"allsoft": 0, "mgt": 0, "mgtr": 0}
+    kinds = [0, 0, 1, 2, 3, 4, 5]
+    reqs = [0, 1, 2, 3, 4, 5, 6]
+    targets = [1, 2, 3]
+    rnd.shuffle(targets)
+    for s in range(3):
+        p["r%dt" % s] = targets[s] if (s == 0 or rnd.random() < 0.7) else 0
+        p["r%dr" % s] = rnd.choice(reqs)
+        p["r%dk" % s] = rnd.choice(kinds)
+        p["r%dx" % s] = rnd.randrange(3)
+    if rnd.random() < 0.4:
+        p["mgt"] = rnd.choice([1, 2, 3])
+        p["mgtr"] = rnd.choice([0, 1, 6])
+    for pi in range(3):
+        p["nv%d" % pi] = rnd.choice([1, 2] if q else [1, 2, 3])
+        for vi in range(3):
+            p["p%d%dt" % (pi, vi)] = rnd.choice([0, 1, 2, 3])
+            p["p%d%dr" % (pi, vi)] = rnd.choice(reqs)
+            p["p%d%dk" % (pi, vi)] = rnd.choice(kinds)
+            p["p%d%dx" % (pi, vi)] = rnd.randrange(3)
+    return p
+
+
+def pypi_skeleton(rnd, q):
+    p = {}
+    targets = [1, 2, 3]
+    rnd.shuffle(targets)
+    for s in range(3):
+        p["r%dt" % s] = targets[s] if (s == 0 or rnd.random() < 0.7) else 0
+        p["r%dr" % s] = rnd.randrange(8)
+        p["r%dm" % s] = rnd.choice([0, 0, 1, 2, 3])
+    for pi in range(3):
+        nv = rnd.choice([1, 2] if q else [1, 2, 3])
+        p["nv%d" % pi] = nv
+        p["pre%d" % pi] = rnd.choice([-1, -1] + list(range(nv)))
+        for vi in range(3):
+            p["p%d%dt" % (pi, vi)] = rnd.choice([0, 0, 1, 2, 3])
+            p["p%d%dr" % (pi, vi)] = rnd.randrange(8)
+            p["p%d%dm" % (pi, vi)] = rnd.choice([0, 0, 0, 1, 2])
+    return p
 
 
 def run(tier):
-    base = dict(unwind=400, timeout_s=900 if tier == "quick" else 3000, summarise=SUM, max_witnesses=2, witness_every=1, panic_is_violation=True,
-                max_steps=50_000_000, max_depth=200)
-    jobs = [dict(base, harness=h, params={}) for h in ("VerifC05GetDependencies", "VerifC05MatchingPrereleases", "VerifC05Resolve")]
-    return run_property("C05", tier, [Group("rpypi", jobs)],
-                        required_covers=["one requirement filtered out by its marker", "some version matched", "resolved without a graph error"],
-                        assumptions=["one PyPI universe (root with three marker-guarded requirements, a package with a prerelease, a blocked version); the marker threshold digit is symbolic, so both the true and the false side of each marker are explored",
-                                     "npm and Maven resolvers, insertion-order and concurrency clauses are not decided (no scheduler in the engine)"],
-                        bounds={"universe": "4 packages, <=3 versions", "resolves": 2})
+    q = tier == "quick"
+    base = dict(unwind=400, timeout_s=900 if q else 2400, summarise=SUM, max_witnesses=1, witness_every=50, panic_is_violation=True,
+                max_steps=4_000_000, max_depth=200)
+    unit = [dict(base, harness=h, params={}) for h in ("VerifC05GetDependencies", "VerifC05MatchingPrereleases", "VerifC05Resolve")]
+    rnd = random.Random(20261004)
+    n = 12 if q else 200
+    pj, nj, mj = list(unit), [], []
+    for i in range(n):
+        sk = c06.skeleton(rnd, False)
+        sk["alt"] = i
+        nj.append(dict(base, harness="VerifC05Npm", params=sk))
+        sk = maven_skeleton(rnd, q)
+        sk["alt"] = i
+        mj.append(dict(base, harness="VerifC05Maven", params=sk))
+        sk = pypi_skeleton(rnd, q)
+        sk["alt"] = i
+        pj.append(dict(base, harness="VerifC05PyPI", params=sk))
+    return run_property("C05", tier, [Group("rpypi", pj), Group("rnpm", nj), Group("rmaven", mj)],
+                        required_covers=["one requirement filtered out by its marker", "some version matched", "resolved without a graph error",
+                                         "resolved a graph with dependencies", "other root resolved in between"],
+                        assumptions=["sequential clauses only: the client reports the same data after Resolve; asking again, resolving another root in between and inserting the versions in the opposite order give the same canonical graph",
+                                     "universe skeletons as in C06/C07/C08 (fixed pseudo-random sample, symbolic version numbers)",
+                                     "concurrent Resolve calls are not decided: the engine has no scheduler"],
+                        bounds={"skeletons_per_resolver": n, "packages": 3, "versions": 3})
